@@ -749,10 +749,11 @@ func (w *SrvWorld) Idle(now int64) {
 				}
 			}
 		}
-		w.Mon.Idle(now, -1, w.lossFree)
+		w.Mon.Idle(now, -1, w.lossFree && !w.K.Stats.HasFault("stream:window-full"))
 		return
 	}
-	w.Mon.Idle(now, w.allocCount(), w.lossFree)
+	// (a writer that found the client's window shut drops or delays what it relays: lossy)
+	w.Mon.Idle(now, w.allocCount(), w.lossFree && !w.K.Stats.HasFault("stream:window-full"))
 	if len(w.Real) > 0 {
 		w.checkReleased(now)
 	}
